@@ -110,6 +110,9 @@ SMALL = {
     ],
     "notifications": [
         {"method": "t/not", "typeName": "TNot", "messageDirection": "serverToClient", "params": {"kind": "reference", "name": "SA"}, "registrationOptions": {"kind": "reference", "name": "SB"}, "registrationMethod": "t/reg2", "documentation": "d", "since": "3.1"},
+        # the schema also allows the ARRAY form of params (a list of types)
+        {"method": "t/not-arr", "messageDirection": "both", "params": [{"kind": "reference", "name": "SA"}, {"kind": "base", "name": "string"}]},
+        {"method": "t/not-arr0", "messageDirection": "both", "params": []},
         {"method": "t/not2", "messageDirection": "clientToServer"},
     ],
     "structures": [
@@ -187,6 +190,8 @@ def wire_edits(doc, rng, limit):
         ed("request.direction", lambda d, i=i: d["requests"][i].__setitem__("messageDirection", "both" if d["requests"][i]["messageDirection"] != "both" else "clientToServer"))
         ed("request.result", lambda d, i=i: d["requests"][i].__setitem__("result", {"kind": "array", "element": d["requests"][i]["result"]}))
         ed("request.params", lambda d, i=i: d["requests"][i].__setitem__("params", {"kind": "reference", "name": "ZZParams"}) if True else None)
+        ed("request.params array form", lambda d, i=i: d["requests"][i].__setitem__("params", [d["requests"][i]["params"]]))
+        ed("request.params array form, two", lambda d, i=i: d["requests"][i].__setitem__("params", [d["requests"][i]["params"], {"kind": "base", "name": "string"}]))
         ed("request.registrationOptions", lambda d, i=i: d["requests"][i].__setitem__("registrationOptions", {"kind": "reference", "name": "ZZReg"}))
     for i in range(len(R)):
         if i < 40 or "registrationMethod" in R[i]:
@@ -203,6 +208,7 @@ def wire_edits(doc, rng, limit):
         ed("notification.method", lambda d, i=i: d["notifications"][i].__setitem__("method", d["notifications"][i]["method"] + "X"))
         ed("notification.direction", lambda d, i=i: d["notifications"][i].__setitem__("messageDirection", "both" if d["notifications"][i]["messageDirection"] != "both" else "serverToClient"))
         ed("notification.params", lambda d, i=i: d["notifications"][i].__setitem__("params", {"kind": "reference", "name": "ZZParams"}))
+        ed("notification.params array form", lambda d, i=i: d["notifications"][i].__setitem__("params", [d["notifications"][i]["params"]]))
     # edits inside type expressions, found by walking every type of the document
     sites = []
 
